@@ -84,6 +84,32 @@ class Writer:
         self.op_index = u.params.index(self.op_param)
 
 
+def find_fetch(body, ops_names, ivar):
+    """(op variable, argument variable, op statement, argument statement) of a step loop body:
+    ``op = ops[i]`` and ``arg = <expression over ops[i+1]>`` (None when not found)"""
+    from .affine import linear, NotAffine
+
+    def offset_of(e):
+        if isinstance(e, ast.Subscript) and isinstance(e.value, ast.Name) and e.value.id in ops_names \
+                and not isinstance(e.slice, ast.Slice):
+            try:
+                a, b = linear(e.slice, {ivar: (1, 0)})
+            except NotAffine:
+                return None
+            return b if a == 1 else None
+        return None
+    opv = argv = ost = ast_ = None
+    for st in body:
+        if isinstance(st, ast.Assign) and len(st.targets) == 1 and is_name(st.targets[0]):
+            if offset_of(st.value) == 0 and opv is None:
+                opv, ost = st.targets[0].id, st
+            elif argv is None and any(offset_of(x) == 1 for x in ast.walk(st.value)):
+                argv, ast_ = st.targets[0].id, st
+    if opv is None or argv is None:
+        return None
+    return opv, argv, ost, ast_
+
+
 class TInterp:
     def __init__(self, program):
         self.program = program
@@ -114,15 +140,29 @@ class TInterp:
         self.loop_node = self.cfg.node_of(self.loop)
         # op, arg = ops[i], ops[i+1]
         self.op_var = self.arg_var = None
-        self.fetch_stmt = None
+        self.fetch_stmt = self.arg_fetch_stmt = None
+        # op = ops[i] ; arg = <expression over ops[i+1]>   (tuple assignments are split by the
+        # normal form; the argument may be fetched raw or already passed through arg_val)
+        from .affine import linear, NotAffine
+
+        def offset_of(e):
+            if isinstance(e, ast.Subscript) and is_name(e.value, self.ops_var) and not isinstance(e.slice, ast.Slice):
+                try:
+                    a, b = linear(e.slice, {self.ivar: (1, 0)})
+                except NotAffine:
+                    return None
+                return b if a == 1 else None
+            return None
         for st in self.loop.body:
-            if isinstance(st, ast.Assign) and len(st.targets) == 1 and isinstance(st.targets[0], ast.Tuple) \
-                    and isinstance(st.value, ast.Tuple) and len(st.value.elts) == len(st.targets[0].elts) == 2:
-                v0, v1 = st.value.elts
-                if isinstance(v0, ast.Subscript) and is_name(v0.value, self.ops_var):
-                    self.op_var = st.targets[0].elts[0].id
-                    self.arg_var = st.targets[0].elts[1].id
+            if isinstance(st, ast.Assign) and len(st.targets) == 1 and is_name(st.targets[0]):
+                if offset_of(st.value) == 0 and self.op_var is None:
+                    self.op_var = st.targets[0].id
                     self.fetch_stmt = st
+                elif self.arg_var is None and any(offset_of(x) == 1 for x in ast.walk(st.value)):
+                    self.arg_var = st.targets[0].id
+                    self.arg_fetch_stmt = st
+        if self.arg_var is None:
+            self.op_var = None
         if self.op_var is None:
             raise AnalysisError('_t_eval: no ``op, arg = ops[i], ops[i+1]`` in the loop body')
         self.else_bodies = []
